@@ -171,7 +171,10 @@ def run(sc):
         queued = []
         for m in sc['msgs']:
             text = ('segmented text ' * 30) if m['seg'] else 'hello'
-            queued.append(SubmitSm(short_message=text, auto_message_payload=not m['seg'], log_id=m['log'], extra_data='x' + m['log']))
+            # segmented messages: SAR parameters, or (every other one, by the position of the message) a concatenation UDH
+            udh = m['seg'] and (len(queued) + sc['seed']) % 2 == 1
+            queued.append(SubmitSm(short_message=text, auto_message_payload=not m['seg'], log_id=m['log'], extra_data='x' + m['log'],
+                                   esm_class=0x40 if udh else 0))
             s.at(m['at'], s.enqueue, queued[-1])
         ag = sc.get('again')
         if ag:
